@@ -307,6 +307,14 @@ where
             }
         };
 
+        // The invoice must be for the payment hash of the htlc. The preimage of
+        // the invoice's payment hash cannot settle an htlc with another hash.
+        if AsRef::<[u8]>::as_ref(invoice.payment_hash()) != req.htlc.payment_hash.as_slice() {
+            return Err(anyhow!(
+                "trampoline invoice payment hash does not match htlc payment hash"
+            ));
+        }
+
         // For now invoices need to have a valid signature, because the `pay`
         // command requires invoices to have a valid signature. Once we move away
         // from the `pay` command, we can remove this check. (note that when
